@@ -82,6 +82,7 @@ func checkC01(c *Ctx) {
 		stride = 4
 	}
 	groups := map[string]int{}
+	guardOutcomes := 0
 	for i, sc := range small {
 		if sc.Group != "template" && sc.Group != "interaction" && (i+int(c.Seed))%stride != 0 {
 			continue
@@ -104,11 +105,16 @@ func checkC01(c *Ctx) {
 			c.Fail("generated-program-does-not-parse", o.ErrMsg, map[string]any{"check": "small", "src": src})
 			continue
 		}
+		if strings.Contains(o.ErrMsg, "deadline exceeded") || len(o.Out) > 200000 {
+			guardOutcomes++ // ended by the deadline (e.g. `for x = true {..}`): a resource-guard outcome, not counted (C09's subject)
+			continue
+		}
 		groups[sc.Group]++
 		cases = append(cases, semCase{ID: n + i, Src: src, Prog: prog, Obs: o, Meta: map[string]any{"features": []string{sc.Group}}})
 		c.Case(src, true)
 	}
 	c.Cov("small_scope_groups", groups)
+	c.Cov("guard_outcomes_not_counted", guardOutcomes)
 	c.Cov("exhaustive", c.Thorough())
 	vs, err := semValidate(c, cases, 30000, c.Pick(4, 8), 2)
 	if err != nil {
